@@ -35,6 +35,7 @@ RULE = (
     "aborted at a file event), compared byte for byte with the same rollup on a pristine input directory. Non-trivial = the debris directory differed from empty when the observed run started; distinct = "
     "(producer config, mode, k) / history."
     " A third of the histories use prefixes / file roots containing [ ] * ? for the observed run; a file the run created or rewrote counts as its intermediate."
+    " cli_tsv also runs the command line with the k-th write of its PIN conversion failing: the input must stay the original or the complete conversion and a rerun must reproduce the clean results."
 )
 ASSUMPTIONS = [
     "files that existed before the observed run and are not touched by it are never counted against it",
@@ -376,6 +377,59 @@ def run_cli_tsv(case):
             res.violate("results_depend_on_leftovers", "cli/" + kind, files=sorted(k for k in set(got) | set(clean) if got.get(k) != clean.get(k)), **extra)
         if (ddir / "in.pin.tsv").exists():
             res.violate("intermediate_file_left_behind", "pin.tsv", **extra)
+        # an earlier run that fails while it converts the input (its k-th write to <pin>.tsv fails, e.g. a full disk):
+        # the user's input must still be the original file or the complete conversion, and the same command run
+        # again must give the clean-directory results
+        cli = core.mk("mokapot.mokapot")
+        fdir = d / "failing"
+        fdir.mkdir()
+        fpin = fdir / "in.pin"
+        fpin.write_text(text)
+        fail_at = int(rng.integers(2, len(lines) - 1))
+
+        class _Failing:
+            def __init__(self, fh):
+                self.fh, self.n = fh, 0
+
+            def write(self, x):
+                self.n += 1
+                if self.n >= fail_at:
+                    raise OSError(28, "No space left on device (injected)")
+                return self.fh.write(x)
+
+            def __getattr__(self, a):
+                return getattr(self.fh, a)
+
+            def __enter__(self):
+                self.fh.__enter__()
+                return self
+
+            def __exit__(self, *a):
+                return self.fh.__exit__(*a)
+
+        def opener(path, mode="r", *a, **kw):
+            fh = open(path, mode, *a, **kw)
+            return _Failing(fh) if str(path).endswith(".tsv") and any(ch in mode for ch in "wa") else fh
+
+        cli.open = opener       # shadows the builtin inside mokapot.mokapot only
+        try:
+            fc = core.Call(main, [str(fpin), "--dest_dir", str(fdir / "out")] + [str(a) for a in args])
+        finally:
+            del cli.open
+        res.count("cli_runs_with_failing_conversion")
+        if fc.ok:
+            res.count("injected_write_failure_not_reached")
+        else:
+            after = fpin.read_text()
+            if after != text and after != expected:
+                res.violate("input_replaced_by_partial_conversion", "failed_conversion", lines_after=after.count("\n"),
+                            lines_original=text.count("\n"), failed_write=fail_at, **extra)
+            else:
+                shutil.rmtree(fdir / "out", ignore_errors=True)
+                rc = core.Call(main, [str(fpin), "--dest_dir", str(fdir / "out")] + [str(a) for a in args])
+                res.count("cli_runs")
+                if rc.ok and snapshot(fdir / "out") != clean:
+                    res.violate("results_depend_on_leftovers", "cli/after_failed_conversion", failed_write=fail_at, **extra)
         res["nontrivial"] = True
         res["sample"] = dict(extra, rows=len(df))
     return res
